@@ -136,15 +136,34 @@ type Node struct {
 	DC     string
 	HostID primitive.UUID
 
-	mu       sync.Mutex
-	ln       net.Listener
-	conns    map[*Conn]struct{}
-	prepared map[string]prepared
-	listed   bool
-	up       bool
-	muted    bool                      // the node reads but never answers (heartbeat silence)
-	maxVer   primitive.ProtocolVersion // 0 = the cluster's MaxVersion
-	shape    RowShape                  // how the other nodes' system.peers describe this node
+	mu         sync.Mutex
+	ln         net.Listener
+	conns      map[*Conn]struct{}
+	prepared   map[string]prepared
+	listed     bool
+	up         bool
+	muted      bool                      // the node reads but never answers (heartbeat silence)
+	maxVer     primitive.ProtocolVersion // 0 = the cluster's MaxVersion
+	shape      RowShape                  // how the other nodes' system.peers describe this node
+	stallUntil int64                     // unix nanoseconds until which the node reads nothing from its connections
+}
+
+// StallThenDrop makes the node stop reading from its connections for d and then drops every data connection: what the
+// proxy had queued for them and could not write goes down with them.
+func (c *Cluster) StallThenDrop(ip string, d time.Duration) {
+	n := c.Node(ip)
+	if n == nil {
+		return
+	}
+	atomic.StoreInt64(&n.stallUntil, time.Now().Add(d).UnixNano())
+	go func() {
+		time.Sleep(d)
+		for _, cn := range n.Conns() {
+			if !cn.Registered {
+				cn.Close("stall-drop")
+			}
+		}
+	}()
 }
 
 // RowShape is what the other nodes' system.peers say about a node: RPC "" (the node's address) | "wild4" | "wild6" |
@@ -527,6 +546,10 @@ func (cn *Conn) serve() {
 	defer cn.Close("eof")
 	c := cn.N.C
 	for {
+		// a node that has stopped reading (its receive buffer fills, then the proxy's writes block)
+		for time.Now().UnixNano() < atomic.LoadInt64(&cn.N.stallUntil) && !cn.Closed() {
+			time.Sleep(5 * time.Millisecond)
+		}
 		raw, err := cn.codec.DecodeRawFrame(cn.nc)
 		if err != nil {
 			return
